@@ -2,7 +2,8 @@
 (***************************************************************************)
 (* C09, implementation layer: the three copies of the status mapping,      *)
 (* transcribed, running against a small model of the kernel side of a run  *)
-(* (main process, at most one child, wait events, signal-delivery-stops).  *)
+(* (main process, at most one child or re-parented descendant, wait        *)
+(* events, signal-delivery-stops).                                         *)
 (*                                                                         *)
 (*   ptrace     ptracer/tracer_track_linux.go  ptraceHandle.handle         *)
 (*   unshare    runner/unshare/run_linux.go    Run, wait loop              *)
@@ -22,7 +23,9 @@ CONSTANTS ChildCodes,    \* exit codes used by a child that exits first
           ChildSigs,     \* signals a child is killed by
           ExtSigs,       \* signals the caller sends from outside
           MCExits,       \* exit codes explored (0..255 in the thorough tier)
-          DeliverTrap    \* BOOLEAN: tracer hands a genuine SIGTRAP to the tracee
+          DeliverTrap,   \* BOOLEAN: tracer hands a genuine SIGTRAP to the tracee
+          WaitGroup      \* BOOLEAN: the container init waits for the program's process group (-pid)
+                         \* instead of the program (FALSE = the code; TRUE shows what that would break)
 
 VARIABLES runner, att, child, execved, mpc, mws, kpc, kws, result, actual
 vars == <<runner, att, child, execved, mpc, mws, kpc, kws, result, actual>>
@@ -47,6 +50,10 @@ Children ==
        { [k |-> "none", n |-> 0], [k |-> "outlive", n |-> 0] }
   \cup { [k |-> "exitfirst", n |-> c] : c \in ChildCodes }
   \cup { [k |-> "killed", n |-> s] : s \in ChildSigs }
+  \* re-parented descendant (double fork): not a child of the main process any more, still in its
+  \* process group, ends before the main process does
+  \cup { [k |-> "orphanexit", n |-> c] : c \in ChildCodes }
+  \cup { [k |-> "orphankilled", n |-> s] : s \in ChildSigs }
 
 (* ----------------------- the three transcriptions ---------------------- *)
 SwitchSignal(s) ==      \* the switch that appears, identically, in all three copies
@@ -117,7 +124,7 @@ MainFork ==
 
 KidAct ==
   /\ Running /\ kpc = "act"
-  /\ IF child.k = "exitfirst" THEN kpc' = "dead" /\ kws' = Exited(child.n)
+  /\ IF child.k \in {"exitfirst", "orphanexit"} THEN kpc' = "dead" /\ kws' = Exited(child.n)
      ELSE IF runner = "ptrace" /\ child.n # SIGKILL
           THEN kpc' = "stopped" /\ kws' = Stopped(child.n)
           ELSE kpc' = "dead" /\ kws' = Signaled(child.n)
@@ -130,10 +137,14 @@ KidAfter ==    \* the child's signal did not end it
 
 \* waitpid() in the main process returns once the child is dead; a traced child is handed
 \* back to its real parent only after the tracer has seen its end
+Orphan == child.k \in {"orphanexit", "orphankilled"}
 MainWaitKid ==
   /\ Running /\ mpc = "waitkid"
-  /\ IF runner = "ptrace" THEN kpc = "reaped" ELSE kpc = "dead"
-  /\ mpc' = "act" /\ kpc' = "reaped"
+  /\ IF Orphan
+     THEN \* the main process only learns (EOF on a pipe) that the orphan is gone; somebody else reaps it
+          kpc \in {"dead", "reaped"} /\ UNCHANGED kpc
+     ELSE (IF runner = "ptrace" THEN kpc = "reaped" ELSE kpc = "dead") /\ kpc' = "reaped"
+  /\ mpc' = "act"
   /\ UNCHANGED <<runner, att, child, execved, mws, kws, result, actual>>
 
 MainAct ==
@@ -183,7 +194,14 @@ Waiter ==      \* unshare: Wait4(pgid); container: waitLoop Wait4(pid) + the two
   /\ result' = IF runner = "unshare" THEN UnshareResult(mws) ELSE HostResult(InitReply(mws))
   /\ UNCHANGED <<runner, att, child, execved, mpc, mws, kpc, kws, actual>>
 
-Next == StartFails \/ MainFork \/ KidAct \/ KidAfter \/ MainWaitKid \/ MainAct \/ MainAfter
+\* Only with WaitGroup: in the container the orphan is a child of init (pid 1) and still in the
+\* program's process group, so wait4(-pid) may return it
+WaiterGroup ==
+  /\ Running /\ WaitGroup /\ runner \in {"cbefore", "cafter"} /\ Orphan /\ kpc = "dead"
+  /\ result' = HostResult(InitReply(kws))
+  /\ UNCHANGED <<runner, att, child, execved, mpc, mws, kpc, kws, actual>>
+
+Next == WaiterGroup \/ StartFails \/ MainFork \/ KidAct \/ KidAfter \/ MainWaitKid \/ MainAct \/ MainAfter
         \/ TracerMain \/ TracerKid \/ Waiter
 Spec == Init /\ [][Next]_vars /\ WF_vars(Next)
 
@@ -191,7 +209,7 @@ Spec == Init /\ [][Next]_vars /\ WF_vars(Next)
 Reported == result # NoResult
 \* under ptrace the delivery of SIGXCPU / SIGXFSZ to *any* traced process ends the run with
 \* TLE / OLE (deliberate: an rlimit hit anywhere in the tree); not part of the property layer
-Judged == ~(runner = "ptrace" /\ child.k = "killed" /\ child.n \in {SIGXCPU, SIGXFSZ})
+Judged == ~(runner = "ptrace" /\ child.k \in {"killed", "orphankilled"} /\ child.n \in {SIGXCPU, SIGXFSZ})
 
 VerdictOK ==
   Reported /\ att.kind # "badexec" /\ Judged =>
